@@ -248,12 +248,65 @@ CNT = ("this", "m_blocks_written")
 F_HAS_BLOCKS = ("nz", "this.m_blocks_written")      # m_blocks_written > 0  (unsigned)
 
 
+def anticipates_counter(rf, env, brk, exp, wb):
+    """The closing break guarded by a local flag that was computed *before* the optional export as
+           m_blocks_written > 0 || (export_current_block && <buffered block not empty>)
+    is guarded by what `m_blocks_written > 0` will be after the export, provided <not empty> is exactly the negation of the
+    test under which write_block(block) writes nothing, and the export is the `if (export_current_block) write_block()` that
+    follows.  -> True / explanation of the mismatch / None (not this shape)."""
+    g = [a for a in conjuncts(brk[2]) if a != ("T",)]
+    if len(g) != 1 or g[0][0] != "nz" or not str(g[0][1]).startswith("l:"):
+        return None
+    d = env.defs.get(str(g[0][1]))
+    if d is None:
+        return None
+    fd = ir.cond(d, env)
+    if fd[0] != "or" or F_HAS_BLOCKS not in fd[1:]:
+        return None
+    rest = [x for x in fd[1:] if x != F_HAS_BLOCKS]
+    if len(rest) != 1:
+        return None
+    cj = conjuncts(rest[0])
+    flags = [a for a in cj if a[0] == "nz" and str(a[1]).startswith("p:")]
+    other = [a for a in cj if a not in flags]
+    if len(flags) != 1 or not other:
+        return None
+    # the export under that flag, after the definition and before the break
+    order = {id(n_): i_ for i_, n_ in enumerate(ir.walk(rf["body"]))}
+    dpos = min([order[id(x)] for x in ir.walk(d) if id(x) in order] or [0])
+    exps = [e for e in exp if dpos < e[0] < brk[0] or (order.get(id(e[1]), 0) > dpos)]
+    if len(exp) != 1 or [a for a in conjuncts(exp[0][2]) if a != ("T",)] != flags:
+        return None
+    # the test under which write_block(block) writes nothing, over the exporter's own block
+    gate = None
+    envw = Env(wb["body"])
+    for s_ in ir.stmts(wb["body"]):
+        if s_.get("k") == "If" and ir.always_leaves(s_.get("then")):
+            gate = ir.cond(s_["cond"], envw)
+            break
+    if gate is None:
+        return None
+
+    def over_member(f):
+        if isinstance(f, tuple):
+            return tuple(over_member(x) for x in f)
+        if isinstance(f, str):
+            return f.replace("p:block.", "this.m_block.")
+        return f
+    want = conjuncts(f_not(over_member(gate)))
+    if sorted(map(repr, want)) == sorted(map(repr, other)):
+        return True
+    return "the break is decided before the export from `%s`, but write_block(block) writes a block whenever %s: for a buffered block the two disagree on, " \
+           "the output is closed without its break (or gets one although it holds no block)" % (" && ".join(show_f(a) for a in other), " && ".join(show_f(a) for a in want))
+
+
 def check_framing(run):
     facts = run.facts
     wb = facts.fn("CDNS::CdnsExporter::write_block", sig=["CDNS::CdnsBlock &"], rule="R02.3")
     wh = facts.fn("CDNS::CdnsExporter::write_file_header", rule="R02.3")
-    dt = facts.fn("CDNS::CdnsExporter::~CdnsExporter", rule="R02.3")
-    rots = [f for f in facts.fns("CDNS::CdnsExporter::rotate_output")]
+    dt = ir.normal_path(facts.fn("CDNS::CdnsExporter::~CdnsExporter", rule="R02.3"))
+    rots = [ir.normal_path(f) for f in facts.fns("CDNS::CdnsExporter::rotate_output")]
+    wb, wh = ir.normal_path(wb), ir.normal_path(wh)
     if not rots:
         raise AnalysisBroken("R02.3", "no instantiation of CdnsExporter::rotate_output<T> in the TU set")
     run.floor("R02.3", 10, "framing obligations in CdnsExporter")
@@ -330,9 +383,17 @@ def check_framing(run):
         wr = member_writes(rf, "m_blocks_written")
         exp = find_calls(rf, env, lambda c: callee_qn(c) == "CDNS::CdnsExporter::write_block")
         ok = len(brk) == 1 and conjuncts(brk[0][2]) == [F_HAS_BLOCKS]
+        anticipated = None
+        why_brk = "write_break() must be guarded by exactly m_blocks_written > 0 (found %s)" % (show_f(brk[0][2]) if brk else "no call")
+        if not ok and len(brk) == 1:
+            anticipated = anticipates_counter(rf, env, brk[0], exp, wb)
+            if anticipated is True:
+                ok = True
+            elif isinstance(anticipated, str):
+                why_brk = anticipated
         run.ob("R02.3", "%s:break-iff-blocks" % tag, ok, rf, brk[0][1]["l"] if brk else rf["line"],
-               "closing break written exactly when the output holds blocks" if ok else
-               "write_break() must be guarded by exactly m_blocks_written > 0 (found %s)" % (show_f(brk[0][2]) if brk else "no call"))
+               ("closing break written exactly when the output holds blocks" if anticipated is not True else
+                "the break is decided up front by `blocks written || (export && block not empty)`, which is what m_blocks_written > 0 will be after the export") if ok else why_brk)
         ok = len(rot) == 1 and rot[0][2] == ("T",) and (not brk or brk[0][0] < rot[0][0]) and all(e[0] < rot[0][0] for e in exp)
         run.ob("R02.3", "%s:order" % tag, ok, rf, rot[0][1]["l"] if rot else rf["line"],
                "export, break, then encoder rotation, unconditionally" if ok else
@@ -356,6 +417,8 @@ def check_framing(run):
                 if any(order[id(s_)] < rd for s_ in stores):
                     first = [s_ for s_ in stores if order[id(s_)] < rd][0]
                     ok, ln, why = False, first.get("l", rf["line"]), "m_blocks_written is overwritten before the closing break is decided"
+                elif any(order[id(e_)] > rd for e_ in exports) and anticipated is True:
+                    pass        # decided before the export, with the export's own effect on the counter taken into account
                 elif any(order[id(e_)] > rd for e_ in exports):
                     ok, ln, why = False, reads[0].get("l", rf["line"]), "whether the output needs its closing break is decided before the buffered block is exported: " \
                         "when that export writes the first block of this output, the break is missing and the closed file is truncated CBOR"
@@ -386,15 +449,23 @@ def check_framing(run):
     for f in facts.functions.values():
         if f.get("cls") != EXPORTER:
             continue
+        f = ir.normal_path(f)
         env = Env(f["body"])
         evs, _ = emission.events_of(f, facts, env)
+        brk_ok = {}
+        if f["qn"].endswith("::rotate_output"):
+            # a break guarded by the anticipated counter (see anticipates_counter) is guarded by the counter
+            exp_ = find_calls(f, env, lambda c: callee_qn(c) == "CDNS::CdnsExporter::write_block")
+            for b_ in find_calls(f, env, lambda c: callee_qn(c) == "CDNS::CdnsEncoder::write_break"):
+                if anticipates_counter(f, env, b_, exp_, wb) is True:
+                    brk_ok[b_[1].get("l")] = True
         for e in evs:
             if e.kind == "STRUCT" and e.detail["qn"] not in ("CDNS::CdnsBlock::write", "CDNS::FilePreamble::write"):
                 continue
             n_emit += 1
             if f["key"] in (wb["key"], wh["key"]):
                 continue
-            ok = F_HAS_BLOCKS in conjuncts(e.guard)
+            ok = F_HAS_BLOCKS in conjuncts(e.guard) or (e.kind == "BREAK" and brk_ok.get(e.line, False))
             run.ob("R02.4", "%s:%s@guard" % (short(f["qn"]) + f.get("targs", ""), e.kind), ok, f, e.line,
                    "emission guarded by m_blocks_written > 0" if ok else
                    "encoder emission outside write_block(block) without the m_blocks_written > 0 guard: an output with no block would receive bytes")
